@@ -928,6 +928,11 @@ def run(prop, seed, budget, ctx):
         failures += sf; hist["serialization-cases"] = sn
         for f in sf: hist["P:" + f["why"][0]] += 1
         distinct |= sd
+        import corners7
+        pf, pn, pd, ph = corners7.run_part("C08", seed, budget)
+        failures += pf; distinct |= pd; sn += pn
+        for k_, v_ in ph.items(): hist[k_] += v_
+        for f in pf: hist["P:" + f["why"][0].split(":")[0]] += 1
         import passthrough
         pf, pn, pd, ph = passthrough.run_part(seed, budget)
         failures += pf; distinct |= pd; sn += pn
